@@ -23,6 +23,23 @@ Proof.
   repeat constructor; simpl; intuition discriminate.
 Qed.
 
+(* A delayed multicast response (server side) is sent by coap_retransmit(): as found it did
+   "if (con_active) con_active--" for that node too, then coap_session_connected().  The node is
+   never a CON, nothing took the slot again. *)
+Definition ns_mcast_found (c : ns_cfg) (s : ns_st) : ns_st * list ns_out :=
+  ns_connected c (ns_set_act s (if ns_act s =? 0 then 0 else ns_act s - 1)).
+
+Lemma ns_mcast_refuted_found :
+  let c := ns_mkcfg 1 4 true false false in
+  let s := ns_run c (ns_init true) [NsSubmit (ns_mkmsg true 1 11); NsSubmit (ns_mkmsg true 2 12)] in
+  map ns_nmid (ns_sq s) = [1] /\ map ns_nmid (ns_dq s) = [2] /\
+  snd (ns_mcast_found c s) = [NsTx (ns_mkmsg true 2 12)] /\
+  map ns_nmid (ns_sq (fst (ns_mcast_found c s))) = [1; 2] /\
+  Z.of_nat (length (ns_sq (fst (ns_mcast_found c s)))) > ns_nstart c /\
+  (* repaired: the event is the flush of an established session and does nothing here *)
+  ns_step (ns_mkcfg 1 4 true true false) s NsUp = (s, []).
+Proof. vm_compute. repeat split. Qed.
+
 (* ---------------------------------------------------------------- the repaired code *)
 Definition ns_wf (c : ns_cfg) : Prop := ns_fixed c = true /\ 0 <= ns_nstart c <= 255.
 
@@ -1431,4 +1448,137 @@ Proof.
   split; [split; [reflexivity|cbn; lia]|].
   split; [cbn; repeat constructor; cbn; intuition discriminate|].
   vm_compute. repeat split.
+Qed.
+
+(* ---------------------------------------------------------------- soundness of the checker: FIFO *)
+(* In any accepted history (of any implementation) the messages that are transmitted for the
+   first time outside their own coap_send leave in the order in which they were held, none is
+   skipped and none is transmitted twice: per event, what was pending before plus what the event
+   holds = what the event releases plus what is pending after it. *)
+Lemma ns_msg_eqb_eq a b : ns_msg_eqb a b = true -> a = b.
+Proof.
+  unfold ns_msg_eqb. intros H. apply andb_true_iff in H. destruct H as [H H3].
+  apply andb_true_iff in H. destruct H as [H1 H2].
+  apply eqb_prop in H1. apply Z.eqb_eq in H2. apply Z.eqb_eq in H3.
+  destruct a, b. cbn in *. subst. reflexivity.
+Qed.
+
+Lemma ns_mon_txs_fifo nstart : forall txs infl pend infl' pend',
+  ns_mon_txs nstart infl pend txs = Some (infl', pend') -> pend = txs ++ pend'.
+Proof.
+  induction txs as [|x r IH]; intros infl pend infl' pend' H.
+  - destruct pend; cbn in H; inversion H; reflexivity.
+  - destruct pend as [|p pr]; [discriminate|]. cbn [ns_mon_txs] in H.
+    destruct (ns_msg_eqb x p) eqn:E; [|discriminate]. apply ns_msg_eqb_eq in E. subst p.
+    destruct (Z.of_nat (length (if ns_con x then infl ++ [x] else infl)) <=? nstart); [|discriminate].
+    cbn [app]. f_equal. eapply IH. exact H.
+Qed.
+
+Lemma ns_mon_finish_fifo c est infl pend o m :
+  ns_mon_finish c est infl pend o = Some m -> pend = ns_txs o ++ ns_mpend m.
+Proof.
+  unfold ns_mon_finish. intros H.
+  destruct (ns_mon_txs (ns_nstart c) infl pend (ns_txs o)) as [[i' p']|] eqn:E; [|discriminate].
+  destruct (ns_quiescent (ns_nstart c) est i' p'); [|discriminate].
+  inversion H; subst. cbn [ns_mpend]. eapply ns_mon_txs_fifo. exact E.
+Qed.
+
+(* first transmissions of an event that are not the event's own submission *)
+Definition ns_rel_tx (eo : ns_ev * list ns_out) : list ns_msg :=
+  match fst eo with NsSubmit _ => [] | _ => ns_txs (snd eo) end.
+
+Theorem ns_mon_step_fifo c m e o m' : ns_mopen m = true ->
+  ns_mon_step c m e o = Some m' ->
+  match e with
+  | NsFail r => if r =? ns_ICMP then ns_mpend m' = ns_mpend m else ns_mpend m' = []
+  | _ => ns_mpend m ++ ns_held [(e, o)] = ns_rel_tx (e, o) ++ ns_mpend m'
+  end.
+Proof.
+  intros Ho H. unfold ns_mon_step in H. rewrite Ho in H. cbn [negb] in H.
+  set (infl0 := fold_left (fun l mid => ns_rm_mid mid l) (ns_gaveup o) (ns_minfl m)) in *.
+  destruct (negb (forallb _ (ns_res o))); [discriminate|].
+  unfold ns_rel_tx, ns_held. cbn [fst snd flat_map].
+  destruct e as [x|mid|mid|mid|tok| |r]; rewrite ?app_nil_r.
+  - destruct (ns_accepted o).
+    + destruct (ns_txs o) as [|y [|]]; [| |discriminate]; cbn [andb].
+      * destruct (ns_mest m && negb (ns_con x)); [discriminate|].
+        destruct (ns_quiescent _ _ _ _); inversion H; subst. reflexivity.
+      * destruct (ns_msg_eqb y x && ns_mest m); [|discriminate].
+        destruct (Z.of_nat (length (if ns_con x then infl0 ++ [x] else infl0)) <=? ns_nstart c);
+          inversion H; subst. cbn. rewrite app_nil_r. reflexivity.
+    + cbn [andb]. destruct (ns_txs o); [|discriminate].
+      destruct (existsb _ (ns_mpend m)); inversion H; subst. cbn. rewrite app_nil_r. reflexivity.
+  - apply ns_mon_finish_fifo in H. exact H.
+  - apply ns_mon_finish_fifo in H. exact H.
+  - destruct (existsb _ (ns_minfl m) && _); [discriminate|]. apply ns_mon_finish_fifo in H. exact H.
+  - apply ns_mon_finish_fifo in H. exact H.
+  - apply ns_mon_finish_fifo in H. exact H.
+  - destruct (r =? ns_ICMP).
+    + destruct (ns_txs o); inversion H; subst. reflexivity.
+    + destruct (ns_txs o); [|discriminate].
+      destruct (forallb _ (ns_mpend m)); inversion H; subst. reflexivity.
+Qed.
+
+Definition ns_no_disconnect (t : list (ns_ev * list ns_out)) : Prop :=
+  Forall (fun eo => match fst eo with NsFail r => r = ns_ICMP | _ => True end) t.
+
+Theorem ns_accepts_fifo c : forall t m m', ns_mopen m = true -> ns_no_disconnect t ->
+  ns_mon_run c m t = Some m' ->
+  ns_mpend m ++ ns_held t = flat_map ns_rel_tx t ++ ns_mpend m' /\ ns_mopen m' = true.
+Proof.
+  induction t as [|[e o] r IH]; intros m m' Ho Hnd H.
+  - inversion H; subst. cbn. rewrite app_nil_r. split; [reflexivity|exact Ho].
+  - cbn [ns_mon_run] in H. destruct (ns_mon_step c m e o) as [m1|] eqn:E; [|discriminate].
+    inversion Hnd as [|? ? Hd Hr]; subst.
+    pose proof (ns_mon_step_fifo c m e o m1 Ho E) as Hs.
+    assert (Ho1 : ns_mopen m1 = true).
+    { unfold ns_mon_step in E. rewrite Ho in E. cbn [negb] in E.
+      destruct (negb (forallb _ (ns_res o))); [discriminate|].
+      destruct e as [x|mid|mid|mid|tok| |rr].
+      - destruct (ns_accepted o).
+        + destruct (ns_txs o) as [|y [|]]; [| |discriminate].
+          * destruct (ns_mest m && negb (ns_con x)); [discriminate|].
+            destruct (ns_quiescent _ _ _ _); inversion E; reflexivity.
+          * destruct (ns_msg_eqb y x && ns_mest m); [|discriminate].
+            destruct (Z.of_nat _ <=? ns_nstart c); inversion E; reflexivity.
+        + destruct (ns_txs o); [|discriminate].
+          destruct (existsb _ (ns_mpend m)); inversion E; reflexivity.
+      - unfold ns_mon_finish in E. destruct (ns_mon_txs _ _ _ _) as [[? ?]|]; [|discriminate].
+        destruct (ns_quiescent _ _ _ _); inversion E; reflexivity.
+      - unfold ns_mon_finish in E. destruct (ns_mon_txs _ _ _ _) as [[? ?]|]; [|discriminate].
+        destruct (ns_quiescent _ _ _ _); inversion E; reflexivity.
+      - destruct (existsb _ (ns_minfl m) && _); [discriminate|].
+        unfold ns_mon_finish in E. destruct (ns_mon_txs _ _ _ _) as [[? ?]|]; [|discriminate].
+        destruct (ns_quiescent _ _ _ _); inversion E; reflexivity.
+      - unfold ns_mon_finish in E. destruct (ns_mon_txs _ _ _ _) as [[? ?]|]; [|discriminate].
+        destruct (ns_quiescent _ _ _ _); inversion E; reflexivity.
+      - unfold ns_mon_finish in E. destruct (ns_mon_txs _ _ _ _) as [[? ?]|]; [|discriminate].
+        destruct (ns_quiescent _ _ _ _); inversion E; reflexivity.
+      - cbn [fst] in Hd. subst rr. rewrite Z.eqb_refl in E.
+        destruct (ns_txs o); inversion E; reflexivity. }
+    destruct (IH m1 m' Ho1 Hr H) as [A B]. split; [|exact B].
+    assert (Hh : forall t0, ns_held ((e, o) :: t0) = ns_held [(e, o)] ++ ns_held t0).
+    { intros t0. unfold ns_held. cbn [flat_map]. rewrite app_nil_r. reflexivity. }
+    rewrite Hh. cbn [flat_map].
+    destruct e as [x|mid|mid|mid|tok| |rr];
+      try (rewrite app_assoc, Hs, <- !app_assoc; f_equal; exact A).
+    cbn [fst] in Hd. subst rr. rewrite Z.eqb_refl in Hs.
+    assert (Ht : ns_txs o = []).
+    { unfold ns_mon_step in E. rewrite Ho in E. cbn [negb] in E.
+      destruct (negb (forallb _ (ns_res o))); [discriminate|]. rewrite Z.eqb_refl in E.
+      destruct (ns_txs o); [reflexivity|discriminate]. }
+    unfold ns_rel_tx at 1. cbn [fst snd]. rewrite Ht. unfold ns_held at 1. cbn [flat_map fst app].
+    rewrite <- Hs. exact A.
+Qed.
+
+(* none lost, the progress side: once every in-flight exchange of an established session has
+   finished, nothing is left waiting (NSTART >= 1) *)
+Theorem ns_drained_when_idle c est0 evs : ns_wf c -> 1 <= ns_nstart c ->
+  let s := ns_run c (ns_init est0) evs in
+  ns_est s = true -> ns_sq s = [] -> ns_dq s = [].
+Proof.
+  intros Hwf Hn s He Hs.
+  pose proof (ns_no_needless_hold c est0 evs Hwf) as H. cbn zeta in H. fold s in H.
+  specialize (H He). destruct (ns_dq s) as [|q t]; [reflexivity|].
+  destruct H as [_ H]. rewrite Hs in H. cbn [length] in H. lia.
 Qed.
